@@ -140,6 +140,52 @@ def make(I):
         import math
         return isinstance(v, float) and (math.isnan(v) or math.isinf(v))
 
+
+    def is_selection(I, v):
+        return isinstance(v, B.Selected)
+
+    def selection_parts(I, v):
+        """(values array, boolean mask array) of a boolean-mask selection (row-major sequence of values where mask holds)"""
+        if not isinstance(v, B.Selected):
+            raise Unsupported('not a selection')
+        return (v.vals, v.mask)
+
+
+    def _patch_arr(I, patch, what, rank2):
+        """abstract outline arrays of a patch (A-MPL): functions of the patch class and its geometric constructor arguments,
+        so two patches built with equal arguments have the same outline; the number of vertices depends on the class only"""
+        cname = patch.cls.name
+        params = []
+        for k in sorted(patch.fields.d):
+            v = patch.fields.d[k]
+            if k == 'kwargs':
+                continue
+            for x in (v if isinstance(v, tuple) else (v,)):
+                if isinstance(x, (int, float, Sym)) and not isinstance(x, bool):
+                    params.append(zreal(x))
+        n = Sym(z3.Int(f'path_len_{cname}'), 'int')
+        I.ctx.fact(n.e >= 2)
+        sorts = [z3.RealSort()] * len(params)
+        if rank2:
+            f = z3.Function(f'{what}_{cname}', z3.IntSort(), z3.IntSort(), *sorts, z3.RealSort())
+            a = Arr((n, 2), lambda idx: mk(f(zint(idx[0]), zint(idx[1]), *params), 'real'), 'float')
+        else:
+            f = z3.Function(f'{what}_{cname}', z3.IntSort(), *sorts, z3.IntSort())
+            a = Arr((n,), lambda idx: mk(f(zint(idx[0]), *params), 'int'), 'int')
+        return a
+
+    def abstract_path_vertices(I, patch):
+        return _patch_arr(I, patch, 'pathv', True)
+
+    def abstract_path_codes(I, patch):
+        return _patch_arr(I, patch, 'pathc', False)
+
+    def abstract_outline_vertices(I, patch):
+        return _patch_arr(I, patch, 'outv', True)
+
+    def abstract_outline_codes(I, patch):
+        return _patch_arr(I, patch, 'outc', False)
+
     def arr_from_fn(I, shape, fn, dtype='float'):
         shape = tuple(shape) if not isinstance(shape, ShapeTag) else shape
         return Arr(shape, lambda idx: I.call(fn, list(idx), {}), dtype)
@@ -176,7 +222,7 @@ def make(I):
     ns = dict(fresh_real=F('fresh_real', fresh_real), fresh_int=F('fresh_int', fresh_int), fresh_bool=F('fresh_bool', fresh_bool),
               fact=F('fact', fact), assume=F('assume', assume), implies=F('implies', implies), ite=F('ite', ite),
               oblige=F('oblige', oblige), event=F('event', event), is_symbolic=F('is_symbolic', is_symbolic),
-              unsupported=F('unsupported', unsupported), uf_real=F('uf_real', uf_real), uf=F('uf', uf), is_nonfinite=F('is_nonfinite', is_nonfinite), lemma=F('lemma', lemma), general=F('general', general), arr_like=F('arr_like', arr_like), is_bool_scalar=F('is_bool_scalar', is_bool_scalar), is_bool_array=F('is_bool_array', is_bool_array), dtype_of=F('dtype_of', dtype_of), uf_bool=F('uf_bool', uf_bool),
+              unsupported=F('unsupported', unsupported), uf_real=F('uf_real', uf_real), uf=F('uf', uf), abstract_path_vertices=F('abstract_path_vertices', abstract_path_vertices), abstract_path_codes=F('abstract_path_codes', abstract_path_codes), abstract_outline_vertices=F('abstract_outline_vertices', abstract_outline_vertices), abstract_outline_codes=F('abstract_outline_codes', abstract_outline_codes), is_selection=F('is_selection', is_selection), selection_parts=F('selection_parts', selection_parts), is_nonfinite=F('is_nonfinite', is_nonfinite), lemma=F('lemma', lemma), general=F('general', general), arr_like=F('arr_like', arr_like), is_bool_scalar=F('is_bool_scalar', is_bool_scalar), is_bool_array=F('is_bool_array', is_bool_array), dtype_of=F('dtype_of', dtype_of), uf_bool=F('uf_bool', uf_bool),
               arr_from_fn=F('arr_from_fn', arr_from_fn), arr_at=F('arr_at', arr_at), is_array=F('is_array', is_array),
               cos=F('cos', N.np_cos), sin=F('sin', N.np_sin), sqrt=F('sqrt', lambda I, x: B.sqrt_(I, x)), PI=N.PI,
               deepcopy=F('deepcopy', lambda I, v: I.ext_modules and __import__('pyvc.stdlib_models', fromlist=['x']).deepcopy(I, v)),
